@@ -288,6 +288,10 @@ def build(case):
     else:
         ax_arg = axes
     names = None if case["names"] is None else list(case["names"])
+    if names is not None:
+        # the declared order as callers hold it: a list, a tuple, an array of strings (any sequence of names)
+        how = case.get("names_as") or ["list", "tuple", "list", "array"][(len(case.get("calls", [])) + len(names)) % 4]
+        names = tuple(names) if how == "tuple" else np.array(names) if how == "array" else names
     try:
         if case["via"] == "LensLikelihood":
             from hierarc.Likelihood.hierarchy_likelihood import LensLikelihood
